@@ -29,6 +29,19 @@ pub fn runtime() -> ckb_async_runtime::Handle {
 impl Node {
     /// Opens (or creates) the node's database under `dir` through the same path `ckb run` uses.
     pub fn open(dir: &Path, consensus: Consensus, freezer: bool, store_cfg: Option<ckb_app_config::StoreConfig>) -> Result<Node, String> {
+        Self::open_with(dir, consensus, freezer, store_cfg, None, None, None)
+    }
+
+    #[allow(clippy::too_many_arguments)]
+    pub fn open_with(
+        dir: &Path,
+        consensus: Consensus,
+        freezer: bool,
+        store_cfg: Option<ckb_app_config::StoreConfig>,
+        rt: Option<ckb_async_runtime::Handle>,
+        tx_pool: Option<ckb_app_config::TxPoolConfig>,
+        block_assembler: Option<ckb_app_config::BlockAssemblerConfig>,
+    ) -> Result<Node, String> {
         std::fs::create_dir_all(dir).map_err(|e| e.to_string())?;
         let db_config = DBConfig {
             path: dir.join("db"),
@@ -36,12 +49,16 @@ impl Node {
         };
         std::fs::create_dir_all(dir.join("hm")).map_err(|e| e.to_string())?;
         let ancient = if freezer { Some(dir.join("ancient")) } else { None };
-        let mut builder = SharedBuilder::new("ckb", dir, &db_config, ancient, runtime(), consensus)
+        let mut builder = SharedBuilder::new("ckb", dir, &db_config, ancient, rt.unwrap_or_else(runtime), consensus)
             .map_err(|e| format!("open db: exit code {e:?}"))?
             .header_map_tmp_dir(Some(dir.join("hm")));
         if let Some(sc) = store_cfg {
             builder = builder.store_config(sc);
         }
+        if let Some(tp) = tx_pool {
+            builder = builder.tx_pool_config(tp);
+        }
+        builder = builder.block_assembler_config(block_assembler);
         let (shared, mut pack) = builder.build().map_err(|e| format!("build shared: {e:?}"))?;
         let chain = SimChain::new(pack.take_chain_services_builder());
         Ok(Node {
